@@ -127,6 +127,18 @@ def run(prop="C19", tier="quick"):
                 bound_ok = False
                 for w in loops:
                     vid = w[1]["id"]
+                    # the index must start at 0: every plain assignment to it is the literal 0
+                    starts = []
+                    for b2 in iset["blocks"]:
+                        for el2 in b2["elems"]:
+                            def h(n):
+                                if n.get("k") == "binop" and n["op"] == "=" and n["l"].get("k") == "var" and n["l"]["id"] == vid:
+                                    starts.append(n["r"])
+                            sa.walk(el2["e"], h)
+                    if not starts or any(not (x.get("k") == "int" and x["v"] == 0) for x in starts):
+                        F.append(Finding(prop, "R-RANDCOV", iset["file"], w[0], iset["name"], "array-start:%s.%s" % (stype, fld["name"]),
+                                         "%s copies %s[i] in a loop that does not start at index 0: part of the generator state is not copied"
+                                         % (iset["name"], fld["name"])))
                     for c in conds:
                         if isinstance(c, dict) and c.get("k") == "binop" and c["op"] == "<" and c["l"].get("k") == "var" and c["l"]["id"] == vid \
                                 and c["r"].get("k") == "int":
